@@ -4,6 +4,7 @@ import (
 	"errors"
 	"fmt"
 	"strconv"
+	"sync"
 
 	"log/slog"
 
@@ -33,6 +34,7 @@ type API interface {
 // API
 
 type api struct {
+	mu         sync.Mutex // orders EnqueueSQE against Shutdown/Done
 	sq         chan *bus.SQE[t_api.Request, t_api.Response]
 	buffer     *bus.SQE[t_api.Request, t_api.Response]
 	subsystems []Subsystem
@@ -95,10 +97,16 @@ func (a *api) Stop() error {
 }
 
 func (a *api) Shutdown() {
+	a.mu.Lock()
+	defer a.mu.Unlock()
+
 	a.done = true
 }
 
 func (a *api) Done() bool {
+	a.mu.Lock()
+	defer a.mu.Unlock()
+
 	return a.done && len(a.sq) == 0
 }
 
@@ -163,14 +171,23 @@ func (a *api) EnqueueSQE(sqe *bus.SQE[t_api.Request, t_api.Response]) {
 
 	// we must wait to close the channel because even in a select
 	// sending to a closed channel will panic
+	//
+	// the done check and the send happen under the same lock as
+	// Shutdown and Done, otherwise a request can be enqueued after
+	// the system has observed an empty queue and stopped, and is
+	// never answered
+	a.mu.Lock()
 	if a.done {
+		a.mu.Unlock()
 		sqe.Callback(nil, t_api.NewError(t_api.StatusSystemShuttingDown, nil))
 		return
 	}
 
 	select {
 	case a.sq <- sqe:
+		a.mu.Unlock()
 	default:
+		a.mu.Unlock()
 		sqe.Callback(nil, t_api.NewError(t_api.StatusAPISubmissionQueueFull, nil))
 	}
 }
